@@ -287,7 +287,8 @@ impl Model {
                 Ok(())
             }
             Op::Write(s) => self.step_write(ctx, s, out, t0, t1),
-            Op::TwoWriters { a, b, b_first } => {
+            Op::TwoWriters { a, b, plan } => {
+                let b_first = &crate::exec::two_b_first(*plan);
                 // temp files are private: two writers open at once are their commits in order
                 let (oa, ob) = match out {
                     Out::Pair(x, y) => (&**x, &**y),
